@@ -41,10 +41,13 @@ CHECKS = {
             "Kernel-checked theorems over the executable model of topological_sort for every closed dependency source "
             "(any multiplicity of edges, any insertion order): C14_fuel (the loop terminates within keys+1 rounds), C14_once "
             "(no duplicates, exactly the classes of the source), C14_order (every dependency strictly before its dependent), "
-            "C14_cycle_iff / C14_cycle_reported (the cycle flag is raised exactly for non-acyclic graphs). The tie compares the "
+            "C14_cycle_iff / C14_cycle_reported (the cycle flag is raised exactly for non-acyclic graphs), C14_closure (the on-line "
+            "closure loop of sort_classes collects exactly the classes reachable through the dependency lists, each once, and builds "
+            "a closed source with distinct keys: the hypothesis of the theorems above), C14_sort_classes (the list returned = the "
+            "reachable classes that have an API, each exactly once), C14_kernel_classes. The tie compares the "
             "exact order returned by the real topological_sort and by the real sort_classes on generated classes of every kind.",
-            "The closure loop of sort_classes is modelled and tied but the theorems are stated for the closed source it builds; "
-            "`the emitted source compiles` is witnessed by real cffi builds (4 quick / 150 thorough), not proved.",
+            "The dependency lists of real classes (_get_inner_types() + _depends_on) are inputs of the model, read from the real "
+            "classes by the tie; `the emitted source compiles` is witnessed by real cffi builds (4 quick / 150 thorough), not proved.",
             "7/C14"),
     "C02": ("Lean 4 proof: loop invariant of gen_method_offset by induction over the access path (executed statement IR + static "
             "accumulator = documented address expression), for all indices, objects and memories at once; generator text tied by exact "
